@@ -53,6 +53,9 @@ func genC05(seed uint64, r *rng.Rand) *Plan {
 				if g.R.Chance(0.3) {
 					o.CloseAt = g.R.Range(1, 3)
 				}
+				if g.R.Chance(0.15) {
+					o.TR = "to"
+				}
 				ops = append(ops, o)
 			default:
 				o := g.SingleOp(ts.Name, g.KeyNear(ts.Splits, 4), kinds)
@@ -93,6 +96,15 @@ func (g *Gen) decorate(o *Op) {
 	case "get":
 		if g.R.Chance(0.2) {
 			o.Exists = true
+		}
+		switch g.R.Intn(8) {
+		case 0:
+			// a time range that is open at the start
+			o.TR = "to"
+		case 1:
+			// no time range at all; the server attributes the request by its row
+			o.TR, o.Exists = "none", false
+			o.Key = append(append([]byte(nil), o.Key...), []byte(fmt.Sprintf("~%d", o.Nonce))...)
 		}
 		if g.R.Chance(0.2) {
 			o.MaxVer = uint32(g.R.Range(2, 5))
@@ -136,6 +148,13 @@ func init() {
 	register(&Profile{Name: "c05", Prop: "C05", Generate: genC05,
 		Setup: func(w *World) {
 			ops := w.opIndex()
+			rows := map[string]uint64{}
+			for n, op := range ops {
+				if op.TR == "none" {
+					rows[string(op.Key)] = n
+				}
+			}
+			w.Env.C.RowNonce = func(row []byte) uint64 { return rows[string(row)] }
 			w.Env.C.OnExec = func(e *hb.Exec) {
 				if len(w.pending) > 20 {
 					return
